@@ -1,8 +1,6 @@
 """Properties that are not claimed, with the reason (DESIGN.md section 6)."""
 NOT_APPLICABLE = {
     "C06": "quantifies over task schedules of whole client+broker programs; Kani has no executor or concurrency model and one broker handler already costs minutes of symbolic execution",
-    "C08": "message (de)serializers advance/split bytes::BytesMut (pointer-tagged representation); a single 24-byte frame round trip ran out of memory at 27-35 GB under CBMC, deserialize_message on 12 bytes timed out",
-    "C14": "Packetizer uses split_to/truncate/set_len on BytesMut: out of memory at 28-44 GB on 6 bytes in two chunks; TokioTransport additionally needs tokio I/O futures",
     "C15": "fault injection at every transport operation of the async client run loop combined with task schedules; needs an executor and the whole client (std HashMap, mpsc, oneshot) - out of reach of bounded symbolic execution",
     "C16": "quantifies over schemas and runs rustc/proc-macros on generated code; programs cannot be made symbolic",
     "C17": "pest parser, comrak markdown and String processing over arbitrary source text: input-length loops over heap strings, no bounded kernel carries the property",
